@@ -40,6 +40,11 @@ THEOREMS = [
         # decision tables / expression trees extracted from the real code (harness/dt_c12.py), regenerated on every run
         "frame_table_check", "frame_code_table_eq_model", "frame_code_table_eq_modelCode", "objDigit_spec", "table_single_object",
         "table_no_objects", "scaleFactor_code_eq_model", "scaleFactor_code_spec",
+        # totality companions (>= 2 columns, well-formed areas => .ok) and the behaviour ON the edge lines (half-open rule of
+        # the scan): closed-form winding counter / inside mask for EVERY point, scale monotonicity without the off-line premise
+        "frame_total", "evaluate_frame_total", "crop_succeeds_iff", "box_area_valid",
+        "wn_parallelogram_closed", "inHalf_off_lines", "inside_iff_geometric_closed", "inside_axis_aligned",
+        "scale_mono_all_points", "box_coords_exist", "scale_mono_crop_all", "scaleFactor_pos",
     ]
 ]
 RULE = (
